@@ -951,6 +951,17 @@ func (vc *VC) applySpecNoBody(s *State, call *ast.CallExpr, key string, spec *Fu
 	for i, r := range spec.Requires {
 		vc.oblige(s, "call-requires", fmt.Sprintf("%s:pre%d", site, i+1), "precondition of "+shortKey(key)+": "+r.Src, call.Pos(), env.evalBool(r))
 	}
+	// termination of recursion: a call of a function with a `decreases` measure from a function that has one (the
+	// function itself, or a member of the same recursive group) must make the measure smaller and keep it bounded below
+	if vc.fn != nil && vc.fn.Spec != nil && vc.fn.Spec.Decreases != nil && spec.Decreases != nil && vc.entry != nil && vc.fn.Decl != nil {
+		callerEnv := &SpecEnv{vc: vc, st: vc.entry, vars: map[string]TV{}, objVals: map[types.Object]*Term{}, pkg: vc.fn.Pkg, scope: vc.fn.Pkg.TypesInfo.Scopes[vc.fn.Decl.Type], pos: vc.fn.Decl.Body.Lbrace, what: "decreases of " + shortKey(vc.fn.Key)}
+		for o, v := range vc.paramVals {
+			callerEnv.objVals[o] = v
+		}
+		d0 := callerEnv.eval(vc.fn.Spec.Decreases).T
+		d1 := env.eval(spec.Decreases).T
+		vc.oblige(s, "decreases", site, "recursive call: the measure of "+shortKey(key)+" ("+spec.Decreases.Src+") is smaller than the caller's ("+vc.fn.Spec.Decreases.Src+"), which is not negative", call.Pos(), And(Ge(d0, IntLit(0)), Lt(d1, d0)))
+	}
 	if call != nil {
 		vc.recordCall(s, exprStr(call.Fun), sig, args, nil)
 		if sig.Recv() != nil && recv != nil && vc.fn != nil && vc.fn.Spec != nil && vc.fn.Spec.WatchCalls[exprStr(call.Fun)] {
